@@ -940,6 +940,10 @@ class Evaluator:
             out.append(self.eval(node.elt, sub, ctx))
         return self.new_list(st, out)
 
+    def e_GeneratorExp(self, node, st, ctx):
+        # consumed at once by tuple(...), unpacking, next(...): same value as the list
+        return self.e_ListComp(node, st, ctx)
+
     # ----------------------------------------------------------------------------------
     # calls
     # ----------------------------------------------------------------------------------
@@ -1431,6 +1435,16 @@ class Evaluator:
                 return self.branch(tv, s.body, s.orelse, rest, st, ctx)
             if isinstance(s, (ast.While, ast.For)):
                 self.havoc_loop(s, st, ctx)
+                if isinstance(s, ast.While) and not s.orelse and not any(
+                        isinstance(b, (ast.Break, ast.Return)) for b in ast.walk(s)):
+                    # a while loop without break/return is left exactly when its condition is false
+                    try:
+                        tv = self.eval(s.test, st, ctx)
+                        if isinstance(tv, Cond) and isinstance(tv.a, Const) and isinstance(tv.b, Const) \
+                                and tv.a.value is True and tv.b.value is False:
+                            self.assume(st, tv.test, False)
+                    except Undecided:
+                        pass
                 continue
             if isinstance(s, ast.Pass):
                 continue
